@@ -28,6 +28,12 @@ def analyse(seed):
       if g['group'] == 1:
         g['response'][spec['n_pre']] += 400.0 * (1 + g['id'])
         g['cost'][spec['n_pre']] += (400.0 if spec['scenario'] == 'variable' else 0.0)
+  if spec['scenario'] == 'fixed' and r3.random() < 0.4:
+    kind = kind + '+trailing-spend'         # the treatment group keeps spending during the cooldown period
+    for g in spec['geos']:
+      if g['group'] == 2:
+        for t in range(spec['n_pre'] + spec['n_test'], len(g['cost'])):
+          g['cost'][t] = float(3 * (1 + g['id'] % 4))
   out['kind'] = kind
   level = rng.choice([0.9, 0.8, 0.95, 0.6, 0.3])
   tails = rng.choice([1, 2])
@@ -125,7 +131,7 @@ def run(tier):
         known[klass] = known.get(klass, 0) + 1
   ck.sample({'seed': res[0]['seed'], 'kind': res[0].get('kind')})
   ck.cov['rule'] = ('experiment frames with cooldown (only pre / test / cooldown periods), fixed or variable cost, one in four with a control '
-                    'spike on the first test date; variable-cost frames with the control geos on a constant daily budget (rank-deficient cost regression); on a fresh object or (40%) one that analysed an experiment of the other cost scenario before; the cost scenario is decided from the frame, not by the implementation; both metrics; level in {.9,.8,.95,.6,.3} x tails; checks: report succeeds, bounds '
+                    'spike on the first test date; variable-cost frames with the control geos on a constant daily budget (rank-deficient cost regression); fixed-cost frames whose treatment group keeps spending during the cooldown; on a fresh object or (40%) one that analysed an experiment of the other cost scenario before; the cost scenario is decided from the frame, not by the implementation; both metrics; level in {.9,.8,.95,.6,.3} x tails; checks: report succeeds, bounds '
                     'ordered on every date, counterfactual + difference = observed, pre-period differences = residuals, last cumulative '
                     'row = posterior location and quantiles')
   kinds['reused_object'] = sum(1 for o in res if o.get('reused'))
